@@ -833,6 +833,11 @@ class Machine:
                 out.append(self.load_typed(addr + off, e))
                 off += s
             return out
+        if k == "vector":
+            e0 = self.layout.resolve(t0[2])
+            if e0[0] == "int" and e0[1] % 8:
+                nb = e0[1] * t0[1]
+                return self.bitcast_vec(("int", nb), self.load_bytes(addr, (nb + 7) // 8), t0)
         if k in ("array", "vector"):
             es = self.layout.size(t0[2])
             return [self.load_typed(addr + i * es, t0[2]) for i in range(t0[1])]
@@ -861,6 +866,13 @@ class Machine:
                 self.store_typed(addr + off, e, ev)
                 off += s
             return
+        if k == "vector":
+            e0 = self.layout.resolve(t0[2])
+            if e0[0] == "int" and e0[1] % 8:
+                # sub-byte elements (<N x i1> masks) are stored bit-packed
+                nb = e0[1] * t0[1]
+                self.store_bytes(addr, self.bitcast_vec(t0, v, ("int", nb)), (nb + 7) // 8)
+                return
         if k in ("array", "vector"):
             es = self.layout.size(t0[2])
             for i, ev in enumerate(v):
@@ -1378,10 +1390,19 @@ def _realloc(m, p, size):
         c = mem.get(p + i)
         if c is not None:
             mem[new + i] = c
+    if p:
+        _free(m, p)
     return new
 
 
 def _free(m, p):
+    # freed blocks are never reused (bump allocator); their cells are dropped so that scans of live memory do not see them
+    p = m.resolve_addr(p)
+    size = m.heap_sizes.pop(p, None)
+    if size is not None and size <= (1 << 20):
+        mem = m.mem
+        for a in range(p, p + size):
+            mem.pop(a, None)
     return None
 
 
